@@ -304,8 +304,45 @@ def generate(rng, tier):
     for name, bs in WITNESSES.items():
         for S in ({0}, {1}, {0, 1, 2, 3, 4}):
             cases.append(stream_case(bytes(bs).hex(), S, "theorem witness " + name, ("given:theorem-witness", "given:" + name)))
+    # ---- (e) legacy mesh streams (bitstream 1.0 .. 2.1) re-laid out from 2.2 streams of the real encoder
+    #          (props/meshlegacy.py): the three decodes and the consumer side on every version's layout
+    try:
+        from . import meshlegacy
+        vs, _ = meshlegacy.variants(rng, tier, n_bases=6 if not thorough else 40)
+        for kind, ver, b, v, d in vs:
+            for S in ({0}, {1, 3}, {0, 1, 2, 3, 4}):
+                cases.append(stream_case(v.hex(), S, f"{kind} mesh re-laid out as {ver[0]}.{ver[1]}",
+                                         ("given:meshlegacy", f"given:meshlegacy:v{ver[0]}.{ver[1]}")))
+    except Exception as ex:       # noqa: BLE001 - optional family
+        from vlib import common as C
+        C.log(f"[C10] meshlegacy not used: {ex}")
     cases += apply_cases(cases)
+    # ---- (f) KNOWN FINDING (known_findings.json, signature legacy-eb-parent-scheme-skip): a bitstream 1.0 Edgebreaker
+    #          stream whose SECOND attributes decoder uses a parent-dependent prediction scheme; below 2.0 that scheme
+    #          reads its parent through point_cloud()->attribute(pos), which a decode with POSITION skipped has
+    #          already replaced by the portable integers: the (unskipped) TEX_COORD values differ from the ordinary decode
+    c = stream_case(LEGACY_PARENT_SCHEME_WITNESS, {0}, "legacy Edgebreaker stream with a parent-dependent scheme in a later decoder",
+                    ("given:known-finding", "given:legacy-parent-scheme"))
+    inner = c.oracle
+
+    def known(hout, case, inner=inner):
+        v = inner(hout, case)
+        if v is None:
+            return None
+        return ("legacy-eb-parent-scheme-skip", v[1])
+    c.oracle = known
+    c.model = False
+    c.spec = None
+    c.expect = lambda h, m, cs: None
+    cases.append(c)
     return cases
+
+
+LEGACY_PARENT_SCHEME_WITNESS = (
+    "445241434f010001010000000000000004000000020000000102000000000000001800000001000000000000001f010000000000000000ff01"
+    "00000022000000000000000002ff0000000100000000090300000002010000000309020001000201014876393f682bec3ea79c1b3d2d595e40"
+    "100100110000003f0140010000000000000000c9f800005ae7ce65b0fb531afc92b1fb05cd229e0258409b00000000ffff000005014bbf0b3e"
+    "6b26253e54f2443f080100090000001f014001000000000000000099609886a890fce7020000008002000000007100000000ff000000")
 
 
 def apply_oracle(hout, case):
